@@ -301,6 +301,38 @@ def compositional_unit(p, item, tier, seed):
                     REPLAY_PRELUDE + "from checks import c08\n" + f"mm=c08.concrete_mismatch({kind!r}, {mode!r}, {widths!r}, big_endian={be!r})\nprint(mm and mm[1:])\nsys.exit(1 if mm else 0)\n")
 
 
+def linear_unit(p, item, tier, seed):
+    from checks import c08_lin
+
+    kind, mode, n, m, be = item
+    probs, stats, wit = c08_lin.conservation(p, kind, mode, n, m, be, block_timeout_ms=600000 if tier == "thorough" else 120000)
+    p.case(("c08-lin", kind, mode, n, m, be), sample=f"linear conservation {kind} {mode} {n}x{m} big_endian={be}: {stats}")
+    for k, v in stats.items():
+        p.count(f"lin_{k}", v)
+    hard = [x for x in probs if "inconclusive" not in x]
+    for x in probs:
+        if "inconclusive" in x:
+            p.inconclusive.append(f"{kind} {mode} {n}x{m}: {x}")
+    if not hard:
+        return
+    replay = (REPLAY_PRELUDE + "from checks import c08_lin\n" + f"kind, mode, n, m, be = {item!r}\n" + "av, bv = {wit}\n"
+              "got, nbits = c08_lin.concrete_product(kind, mode, n, m, be, av, bv)\nwant = av * (bv if kind == 'mul' else av)\n"
+              "print(hex(av), hex(bv), hex(got), hex(want))\nsys.exit(1 if got != want else 0)\n")
+    if wit is not None:
+        got, _ = c08_lin.concrete_product(kind, mode, n, m, be, wit[0], wit[1])
+        if got != wit[0] * (wit[1] if kind == "mul" else wit[0]):
+            p.violation(f"mul:linear:{kind}:{mode}{':BE' if be else ''}", f"{kind} {mode} {n}x{m}: {hard[:2]}; operands {hex(wit[0])}, {hex(wit[1])} give {hex(got)}", replay.format(wit=repr(wit)))
+            return
+    mm = concrete_mismatch(kind, mode, [n, m] if kind == "mul" else [n], big_endian=be)
+    if mm is None:
+        p.inconclusive.append(f"linear conservation of {kind} {mode} {n}x{m} failed ({hard[0]}) but no concrete wrong product was found")
+        p.queries["unknown"] += 1
+        return
+    x, a, b, got = mm
+    p.violation(f"mul:linear:{kind}:{mode}{':BE' if be else ''}", f"{kind} {mode} {n}x{m}: {hard[:2]}; concrete witness {a} * {b} gives {got}",
+                REPLAY_PRELUDE + "from checks import c08\n" + f"mm=c08.concrete_mismatch({kind!r}, {mode!r}, {([n, m] if kind == 'mul' else [n])!r}, big_endian={be!r})\nprint(mm and mm[1:])\nsys.exit(1 if mm else 0)\n")
+
+
 def make_cases(tier, rnd):
     thorough = tier == "thorough"
     cases = []
@@ -372,7 +404,8 @@ def run(rep, tier, seed, only=None):
                      "square.add_square (twin for the split) / add_square_pow2_m1", "generate_mul / generate_square"]
     rep.bounds = {"(n,m)": "all pairs with n+m<=8 and widths<=5 + diagonal to 7x7 (quick); all <=8x8 + 9x9 per mode (thorough)",
                   "squares": "n<=14 (quick) / <=20 (thorough)", "twins": f"guards 20->6, 18->4 ({hits[0]} literals), 48->4, [49,53]->[5] ({hits[1]} literals); widths <= 8 (mul), <= 12 (square)"}
-    rep.outside = ["bit-exact leaf multipliers wider than 9x9 inside the true-width recursion (assumed, see bounds); monolithic true-width equivalence is out of the solver's reach",
+    rep.outside = ["MulMode.DEFAULT / ALTER above the directly decided widths (their compression is not built from the recorded exact-sum blocks: (x, x^y) pair encoding, magnitude-dependent carry drops)",
+                   "bit-exact leaf multipliers wider than 9x9 inside the true-width recursion (assumed, see bounds); monolithic true-width equivalence is out of the solver's reach",
                    "widths above the listed ones"]
     rep.rule = "case = (mode, widths, endianness, host kind); operand values quantified by z3 (out == bvmul, product fits)"
     rep.explanation = "z3 decides out == a*b for all operand values per enumerated configuration"
@@ -396,6 +429,19 @@ def run(rep, tier, seed, only=None):
             comp += [("mul", "KARATSUBA", [24, 15]), ("mul", "KARATSUBA", [14, 25]), ("mul", "KARATSUBA", [36, 36]), ("mul", "KARATSUBA", [40, 40]), ("mul", "KARATSUBA_PLAIN", [42, 43]),
                      ("square", "DEFAULT", [51]), ("square", "DEFAULT", [56]), ("square", "DEFAULT", [64])]
         rep.pmap(compositional_unit, [(k, md, w, 18 if thorough else 12, 900000 if thorough else 30000) for k, md, w in comp])
+        lin = [("mul", "POW2_M1", 25, 25, False), ("mul", "POW2_M1", 32, 32, True), ("mul", "POW2_M1", 40, 24, False), ("mul", "POW2_M1", 7, 33, True),
+               ("mul", "WALLACE", 2, 30, False), ("mul", "WALLACE", 2, 44, True), ("mul", "WALLACE", 31, 2, False), ("mul", "WALLACE", 3, 40, False), ("mul", "WALLACE", 24, 24, True),
+               ("mul", "WALLACE", 33, 5, False), ("mul", "DADDA", 24, 24, False), ("mul", "DADDA", 2, 40, True), ("mul", "DADDA", 32, 32, False), ("mul", "DADDA", 17, 40, True),
+               ("square", "POW2_M1", 25, 25, False), ("square", "POW2_M1", 32, 32, True), ("square", "POW2_M1", 40, 40, False)]
+        if thorough:
+            lin += [("mul", md, n, n, bool(n % 2)) for md in ("POW2_M1", "DADDA") for n in (16, 20, 26, 31, 33, 48, 63, 64)]
+            lin += [("mul", "WALLACE", n, n, bool(n % 2)) for n in (16, 20, 26, 31, 33, 40, 48)]
+            lin += [("mul", md, a, b, bool((a + b) % 2)) for md in ("POW2_M1", "DADDA", "WALLACE") for a, b in ((2, 64), (64, 2), (3, 63), (5, 50), (50, 6), (31, 64), (64, 31))]
+            lin += [("mul", "WALLACE", 2, b, False) for b in range(9, 64)]
+            lin += [("square", "POW2_M1", n, n, bool(n % 2)) for n in (16, 31, 33, 48, 63, 64)]
+        rep.pmap(linear_unit, lin)
+        rep.bounds["wide column compression (linear conservation)"] = ("POW2_M1 25x25..40x24, Wallace 2x30..33x5 and 24x24, Dadda 24x24..32x32, squarer POW2_M1 25..40 (quick); up to 64x64 and all 2xk, k<=63 (thorough): "
+                                                                        "every summation block exact (bit-vectors over the real gates) + integer conservation of partial products and carries")
         rep.bounds["true-width recursion (compositional)"] = ("Karatsuba 18x18, 20x20, 21x21, 23x17 and squarer 48, 50 (quick); 20..26, 24x15, 14x25, 36, 40, 42x43, squares 51, 56, 64 (thorough): "
                                                               "recombination + wiring + algebra lemma discharged per recursive node; leaf multipliers wider than "
                                                               + ("9x9" if thorough else "6x6") + " are assumed (same width-generic code as the directly decided widths)")
